@@ -5,7 +5,7 @@ cd /repo || exit 2
 if ! git apply --check "$patch" 2>/dev/null; then echo "PATCH DOES NOT APPLY: $patch"; exit 2; fi
 git apply "$patch"
 for p in "$@"; do
-  (cd /verif && bin/govc check $p quick 2>&1 | grep -v WARNING | grep "VIOLATION\|failed obl\|NOTE\|BROKEN\|$p quick" | cut -c1-230)
+  (cd /verif && VERIF_EVIDENCE_DIR=/verif/out/evidence-scratch bin/govc check $p quick 2>&1 | grep -v WARNING | grep "VIOLATION\|failed obl\|NOTE\|BROKEN\|$p quick" | cut -c1-230)
 done
 git checkout -- . 
 git status --short | grep -v '^??' 
